@@ -72,6 +72,15 @@ class RotaryEmbedding23Fusion(pattern.RewriteRuleClassBase):
 
     def rewrite(self, op, x, freqs, **_):
         num_heads = x.shape[1]
+        # Without position_ids the cos/sin caches have the shape (batch_size, sequence_length, head_size / 2):
+        # the operator does not broadcast over the batch, unlike the Mul of the pattern.
+        if not (
+            _ir_utils.has_rank(freqs, 3) and _ir_utils.same_dim(freqs.shape[0], x.shape[0])
+        ):
+            batch_size = op.Shape(x, start=0, end=1)
+            freqs = op.Expand(
+                freqs, op.Concat(batch_size, op.Constant(value_ints=[1, 1]), axis=0)
+            )
         cos = op.Cos(freqs)
         sin = op.Sin(freqs)
         return op.RotaryEmbedding(
